@@ -297,7 +297,11 @@ pub fn log(line: String) {
         fnv(&mut s.log_hash, line.as_bytes());
         if let Some(l) = s.lines.as_mut() {
             let t = s.now;
-            l.push(format!("[t={t}] {line}"));
+            if l.len() < 20_000 {
+                l.push(format!("[t={t}] {line}"));
+            } else if l.len() == 20_000 {
+                l.push("… trace truncated after 20000 lines".to_string());
+            }
         }
     })
 }
@@ -408,6 +412,26 @@ impl Future for Gate {
                 Poll::Pending
             }
         })
+    }
+}
+
+/// Give the scheduler a chance (and its step cap a grip) inside loops that may never block.
+pub fn yield_now() -> YieldNow {
+    YieldNow(false)
+}
+
+pub struct YieldNow(bool);
+
+impl Future for YieldNow {
+    type Output = ();
+    fn poll(mut self: Pin<&mut Self>, cx: &mut Context<'_>) -> Poll<()> {
+        if self.0 {
+            Poll::Ready(())
+        } else {
+            self.0 = true;
+            cx.waker().wake_by_ref();
+            Poll::Pending
+        }
     }
 }
 
